@@ -140,9 +140,13 @@ theorem T7.ofTick {env : Env} {c c' : Conn} {out : Out} {st0 : State} {rx : Opti
   obtain ⟨a, b, c0⟩ := tickAction_t7 ht
   exact ⟨by rw [a]; exact g, by rw [a]; exact b, by rw [a]; exact c0, by rw [a]; exact r⟩
 
+def isConn : Call → Bool
+  | .connect => true
+  | _ => false
+
 theorem t7_call (now : Nat) (draws : List Nat) (c : Conn) (cl : Call) (r : Ret Conn Packet)
     (hr : P7.call now draws c cl = .ok r) :
-    T7 c.state r.conn.state r.sent none r.events (match cl with | .connect => true | _ => false) := by
+    T7 c.state r.conn.state r.sent none r.events (isConn cl) := by
   obtain ⟨st, snd⟩ := c
   cases cl with
   | connect =>
@@ -766,5 +770,114 @@ theorem J.actB {fa fb : Bool} {w : World proto7} (h : J fa fb w) {r : Ret Conn P
     intro ha2
     have := h.x3 ha2
     clear rc1 rc2 rc3 rc4 rc5; omega
+
+def isConnectBy (x : Side) : Move proto7 → Bool
+  | .call s _ c => decide (s = x) && isConn c
+  | _ => false
+
+def connects (x : Side) (ms : List (Move proto7)) : Bool := ms.any (isConnectBy x)
+
+theorem call_connect_tags {now : Nat} {draws : List Nat} {c : Conn} {r : Ret Conn Packet}
+    (hr : P7.call now draws c .connect = .ok r) : tag c.state = 0 ∧ tag r.conn.state = 1 := by
+  obtain ⟨st, snd⟩ := c
+  simp only [P7.call] at hr
+  split at hr
+  · cases hr
+  · rename_i c1 out hcon
+    injection hr with hr; subst hr
+    unfold connect at hcon
+    cases st with
+    | unconnected =>
+      simp only at hcon
+      split at hcon
+      · cases hcon
+      · exact ⟨rfl, (tickAction_t7 hcon).1⟩
+    | _ => simp at hcon
+
+theorem j_init : J false false (World.init proto7) := by
+  have hH : H ({ conn := Conn.new } : End proto7) :=
+    ⟨fun _ => rfl, (by rintro ⟨dg, hdg, _⟩; simp at hdg), (by rintro ⟨dg, hdg, _⟩; simp at hdg),
+      (by rintro ⟨dg, hdg, _⟩; simp at hdg)⟩
+  have hO : OwnOk Conn.new := by intro o ho; simp [Conn.new, State.ownToken?] at ho
+  exact ⟨hH, hH, hO, hO, (by intro h; cases h), (fun _ => ⟨Or.inl rfl, (by intro h; cases h)⟩),
+    (by intro h; cases h), (by intro h; cases h)⟩
+
+theorem j_step {fa fb : Bool} {w w' : World proto7} (h : J fa fb w) (m : Move proto7) (he : step w m = some w') :
+    J (fa || isConnectBy .a m) (fb || isConnectBy .b m) w' := by
+  cases m with
+  | advance dt =>
+    simp only [step] at he
+    injection he with he; subst he
+    simp only [isConnectBy, Bool.or_false]
+    exact ⟨h.ha, h.hb, h.oa, h.ob, h.ra, h.rb, h.x1, h.x3⟩
+  | call s draws c =>
+    simp only [step] at he
+    cases hr : proto7.call w.now draws (w.get s).conn c with
+    | error e => rw [hr] at he; cases he
+    | ok r =>
+      rw [hr] at he
+      injection he with he
+      subst he
+      have t := t7_call w.now draws (w.get s).conn c r hr
+      have ho : OwnOk (w.get s).conn → OwnOk r.conn := fun h0 => ownok_call h0 hr
+      have hic : isConn c = true → tag (w.get s).conn.state = 0 ∧ tag r.conn.state = 1 := by
+        intro hc
+        cases c <;> simp [isConn] at hc
+        exact call_connect_tags hr
+      cases s with
+      | a =>
+        have e1 : isConnectBy .a (.call .a draws c) = isConn c := by simp [isConnectBy]
+        have e2 : isConnectBy .b (.call .a draws c) = false := by simp [isConnectBy]
+        rw [e1, e2, Bool.or_false]
+        exact h.actA t (by intro q hq; cases hq) (ho h.oa) hic _ _ rfl rfl
+      | b =>
+        have e1 : isConnectBy .b (.call .b draws c) = isConn c := by simp [isConnectBy]
+        have e2 : isConnectBy .a (.call .b draws c) = false := by simp [isConnectBy]
+        rw [e1, e2, Bool.or_false]
+        exact h.actB t (by intro q hq; cases hq) (ho h.ob) _ _ rfl rfl
+  | deliver to i draws alt =>
+    simp only [step] at he
+    cases hdg : (w.get to.other).out[i]? with
+    | none => rw [hdg] at he; cases he
+    | some dg =>
+      rw [hdg] at he
+      simp only at he
+      cases hr : proto7.recv w.now draws (w.get to).conn dg.pkt alt with
+      | error e => rw [hr] at he; cases he
+      | ok r =>
+        rw [hr] at he
+        injection he with he
+        subst he
+        have hm := List.mem_of_getElem? hdg
+        have t := t7_recv w.now draws (w.get to).conn dg.pkt alt r hr
+        have hrx : ∀ q, some dg.pkt = some q → ∃ dg' ∈ (w.get to.other).out, dg'.pkt = q := by
+          intro q hq; injection hq with hq; exact ⟨dg, hm, hq⟩
+        have ho : OwnOk (w.get to).conn → OwnOk r.conn := fun h0 => ownok_recv h0 hr
+        cases to with
+        | a =>
+          simp only [isConnectBy, Bool.or_false]
+          have := h.actA (ic := false) t hrx (ho h.oa) (by intro hc; cases hc) []
+            (w.set .a ((w.get .a).book r [])) rfl rfl
+          simpa using this
+        | b =>
+          simp only [isConnectBy, Bool.or_false]
+          have := h.actB (ic := false) t hrx (ho h.ob) []
+            (w.set .b ((w.get .b).book r [])) rfl rfl
+          simpa using this
+
+theorem j_run : ∀ (ms : List (Move proto7)) (fa fb : Bool) (w w' : World proto7), J fa fb w →
+    NetSim.run w ms = some w' → J (fa || connects .a ms) (fb || connects .b ms) w' := by
+  intro ms
+  induction ms with
+  | nil => intro fa fb w w' h he; simp [NetSim.run] at he; subst he; simpa [connects] using h
+  | cons m ms ih =>
+    intro fa fb w w' h he
+    simp only [NetSim.run] at he
+    cases hst : step w m with
+    | none => rw [hst] at he; cases he
+    | some w1 =>
+      rw [hst] at he
+      have := ih _ _ w1 w' (j_step h m hst) he
+      simpa [connects, Bool.or_assoc] using this
 
 end Tw.NetSim.P7
